@@ -82,6 +82,29 @@ CLAIMED = {
                      "inter-procedural argument following, init-only ownership, paired-call and set-difference idiom checks",
         "design_ref": "DESIGN.md section 3, C07",
     },
+    "C09": {
+        "text": "Decides the two structural clauses of C09 and nothing else: (D1) with modified_basis specialised to False every "
+                "reachable element store into the returned trapezoidal weight array adds a term that is >= 0 in the sign domain under the "
+                "sortedness axiom, and that axiom is an assertion dominating every weight computation in GlobalGrid.set_grid; (D2) the "
+                "weights are a function of the point set, the interval ends and the construction-time flag only (no attribute, level "
+                "array, cache or global read; flag init-only). Exactness of any 1-D rule is numerical and NOT decided.",
+        "technique": "CFG specialisation by a constant flag, sign abstract interpretation with a sortedness axiom, depends-only-on / "
+                     "effect scan, init-only ownership",
+        "design_ref": "DESIGN.md section 3, C09",
+    },
+    "C15": {
+        "text": "Decides structural clauses D1-D6 of C15: every non-constant return of the unmodified weighted rule is dominated by the "
+                "clipping loop over all entries and only non-negative scalings follow; the two weights of an interval add up to its "
+                "zeroth moment on every branch (polynomial identity), are derived for that very interval and go to entries i, i+1; "
+                "without boundary the end entries are zeroed before the inner ones are scaled by the reciprocal of their own sum; "
+                "negative variance entries are flipped and the variance formula pairs matching indices; producer ([1,2]) and "
+                "consumers (first/second half at len//2) of the combined moment vector agree; midpoint fallbacks are taken only "
+                "after a < mid < b failed and the split asserts it. Sum == 1 with boundary, uniform agreement, equal-probability "
+                "split and affine covariance are numerical and NOT decided.",
+        "technique": "dominance of a sanitiser loop + sign domain, polynomial identity, normalisation idiom, guarded-store checks, "
+                     "constant/slice layout agreement across producer and consumers",
+        "design_ref": "DESIGN.md section 3, C15",
+    },
     "C05": {
         "text": "Decides structural clauses D1-D5 of C05: every accumulator (area, container, operation) receives the same "
                 "coefficient-weighted term in all four evaluation routines; removals subtract value and evaluations of the popped position "
